@@ -256,6 +256,14 @@ def d4_display(chk, F):
             for val, tgt in t["targets"]:
                 if val == "0":
                     zero.setdefault(k, []).append((b, tgt))
+    # the same test kept in a bool: `let has_whole = whole != 0;`
+    for i, j, st in f.iter_stmts():
+        rv = st.get("rv", {})
+        if st["k"] == "assign" and rv.get("k") == "bin" and rv["op"] in ("Ne", "Eq", "Gt") and (rv["r"].get("const") or {}).get("bits") == "0" and not st["place"]["p"]:
+            k = fld(resolve(f, rv["l"]))
+            if k:
+                te, fe = bool_edges(f, st["place"]["l"])
+                zero.setdefault(k, []).extend(te if rv["op"] == "Eq" else fe)
     sites = []
     for st in fmtq.format_sites(f):
         ks = [fld(tk[1]) for tk in st["tokens"] if tk[0] == "arg"]
@@ -271,6 +279,11 @@ def d4_display(chk, F):
             continue
         seen.add(form)
         ok = all(any(f.edge_dominates(e, st["block"]) for e in zero.get(k, [])) for k in allowed[form])
+        if not ok:
+            # the zero test may be a bool tested more than once (`if a && b {..} else if a {..}`): no branch-consistent path
+            # reaches the site without passing a zero edge of every omitted component
+            from cfgq import consistent_path_exists
+            ok = all(zero.get(k) and not consistent_path_exists(f, 0, st["block"], zero[k]) for k in allowed[form])
         chk.expect(ok, "C12.D4-display", f"fmt|{form}", where,
                    f"the form `{form}` leaves out {allowed[form]} on a path where that component was not tested to be 0",
                    sample=f"{where}: `{form}`" + (f" only when {allowed[form][0]} == 0" if allowed[form] else ""))
